@@ -345,6 +345,7 @@ func c01qualifiers(c *core.Check) {
 	c.Min("qualifier-is-import-alias", 3)
 	pkgIdentityByPath(c)
 	c01mapKeyRepresentable(c)
+	c01fastgoPerFile(c)
 }
 
 type sync2 = sync.Mutex
